@@ -9,7 +9,7 @@ From Coq Require Import List NArith ZArith Bool Arith Lia.
 From RecordUpdate Require Import RecordUpdate.
 From JV Require Import Bytes Msg SrvModel SrvLemmas SrvBasics SrvC01 SrvC07 SrvC09 SrvC10 SrvC08 SrvC08b SrvC08c SrvC08q
   SrvC08m SrvHist SrvC01b.
-From JV Require SrvC03 SrvC06 SrvC06b SrvNoCrash SrvC08n SrvC08r SrvC08u SrvC08w SrvC08x SrvC09b SrvC09c.
+From JV Require SrvC03 SrvC06 SrvC06b SrvNoCrash SrvC08n SrvC08r SrvC08u SrvC08w SrvC08x SrvC08y SrvC09b SrvC09c.
 Import ListNotations.
 
 (** * 0. release-only runs *)
@@ -660,3 +660,461 @@ Qed.
 Lemma count_waitret_spec os :
   count_waitret os = length (filter (fun o => match o with OWaitRet _ => true | _ => false end) os).
 Proof. unfold count_waitret. apply countb_filter_length. Qed.
+
+(** * 5. C09: a Callback eventually returns *)
+(* while the server runs its reader is alive *)
+Definition run_rd (s : state) : Prop := running s = true -> rd_live (rd s) = 1.
+
+Lemma raw_run_rd s l s' os : inv s -> run_rd s -> step_raw s l = Some (s', os) -> run_rd s'.
+Proof.
+  intros I P H. unfold run_rd in *. apply raw_ctl in H; auto.
+  destruct H as [L Rn Wg -> | c s0 s1 Sc Rn H0 Ps H1 | f L Rd Rn -> | f i L Rd Hf Rn S5 C0 Ri Wa Hq
+                | L D -> | u L D -> | u un s1 L E Su -> Hs | S5 Cp Wa Cr].
+  - reflexivity.
+  - intros Z. pose proof (sr_running _ _ _ Ps) as F. destruct H1 as [->|(_ & ->)]; cbn in Z; congruence.
+  - cbn. congruence.
+  - rewrite Ri. reflexivity.
+  - destruct (dequeue_nontask_like s) as ((Rn & _) & Rd & _). rewrite Rn, Rd. exact P.
+  - exact P.
+  - pose proof (nontask_release (unit_tasks s u) s) as G. apply nontask_fields in G.
+    assert (W1 : running (release_ids (unit_tasks s u) s) = running s /\ rd (release_ids (unit_tasks s u) s) = rd s)
+      by (split; apply G).
+    destruct W1 as [W1 W2]. destruct Hs as [(_ & ->)|(_ & ->)]; cbn; rewrite W1, W2; exact P.
+  - destruct S5 as (Rn & _). unfold ctlp in Cp. injection Cp as _ _ Rd _ _. rewrite Rn, Rd. exact P.
+Qed.
+
+Lemma settle1_run_rd s s' os : run_rd s -> settle1 s = Some (s', os) -> run_rd s'.
+Proof.
+  intros P Hs. unfold run_rd in *. apply settle1_inv in Hs. destruct Hs; cbn; auto.
+  destruct (dequeue_nontask_like s) as ((Rn & _) & Rd & _). rewrite Rn, Rd. exact P.
+Qed.
+
+Lemma reachf_run_rd c s : reachf c s -> run_rd s.
+Proof.
+  induction 1 as [|s l s' os R IH Cr Hs|s s' os R IH Hs].
+  - unfold run_rd. cbn. discriminate.
+  - eapply raw_run_rd; eauto. eapply reachf_inv; eauto.
+  - eapply settle1_run_rd; eauto.
+Qed.
+
+(* how a callback record evolves: it keeps its operation number and id, a cancelled context stays cancelled, and a
+   callback that has returned (slot written, or send failure) never becomes outstanding again *)
+Definition cb_le (c c' : cb) : Prop :=
+  cb_op c' = cb_op c /\ cb_id c' = cb_id c /\ (cb_cancelled c = true -> cb_cancelled c' = true) /\
+  (live c' = true -> live c = true).
+
+Lemma cb_le_refl c : cb_le c c.
+Proof. repeat split; auto. Qed.
+
+Lemma cb_le_trans a b c : cb_le a b -> cb_le b c -> cb_le a c.
+Proof. intros (A1 & A2 & A3 & A4) (B1 & B2 & B3 & B4). repeat split; auto; congruence. Qed.
+
+(* record i persists and evolves; if it was outstanding it still is, or its Callback returns in this very step *)
+Definition cb_next (op : nat) (l0 l1 : list cb) (os : list obs) (i : nat) (c0 : cb) : Prop :=
+  exists c', nth_error l1 i = Some c' /\ cb_le c0 c' /\
+    (live c0 = true -> live c' = true \/ exists r, In (ORet op r) os /\ is_completion r = true).
+
+Lemma cb_next_same op l os i c0 : nth_error l i = Some c0 -> cb_next op l l os i c0.
+Proof. intros N. exists c0. split; auto. split; [apply cb_le_refl|auto]. Qed.
+
+Lemma cb_next_upd op l os i c0 j f : nth_error l i = Some c0 ->
+  (forall x, cb_le x (f x)) -> (forall x, live x = true -> live (f x) = true) -> cb_next op l (upd_nth j f l) os i c0.
+Proof.
+  intros N Hle Hl. rewrite <- (app_nil_r os). unfold cb_next. rewrite nth_error_upd_nth.
+  destruct (Nat.eqb_spec j i) as [->|Ne].
+  - rewrite N. cbn. exists (f c0). split; auto.
+  - exists c0. split; auto. split; [apply cb_le_refl|auto].
+Qed.
+
+Lemma complete_cb_next j v s i c0 : nth_error (cbs s) i = Some c0 ->
+  cb_next (cb_op c0) (cbs s) (cbs (fst (complete_cb j v s))) (snd (complete_cb j v s)) i c0.
+Proof.
+  intros N. unfold complete_cb. destruct (nth_error (cbs s) j) as [c|] eqn:Nj; cbn [fst snd]; [|apply cb_next_same; auto].
+  change (cbs (s <| cbs ::= upd_nth j (fun c1 => wake_watch (c1 <| cb_slot := Some v |>)) |> <| calls ::= assoc_del (cb_id c) |>))
+    with (upd_nth j (fun c1 => wake_watch (c1 <| cb_slot := Some v |>)) (cbs s)).
+  unfold cb_next. rewrite nth_error_upd_nth. destruct (Nat.eqb_spec j i) as [->|Ne].
+  - rewrite N. cbn [option_map]. assert (c = c0) by congruence. subst c.
+    exists (wake_watch (c0 <| cb_slot := Some v |>)). split; auto. split.
+    + repeat split; auto. cbn. discriminate.
+    + intros L. right. unfold live in L. destruct (cb_slot c0); [discriminate|].
+      apply negb_true_iff in L. rewrite L. exists (res_of_val v). split; [left; reflexivity|apply res_of_val_completion].
+  - exists c0. split; auto. split; [apply cb_le_refl|auto].
+Qed.
+
+Lemma cb_next_trans op l0 l1 l2 os1 os2 i c0 c1 : cb_op c1 = op ->
+  (exists c', nth_error l1 i = Some c' /\ c' = c1) -> cb_next op l0 l1 os1 i c0 -> cb_next op l1 l2 os2 i c1 ->
+  incl os1 os2 -> cb_next op l0 l2 os2 i c0.
+Proof.
+  intros Eo (c' & N1 & ->) (x & Nx & Le1 & H1) (c2 & N2 & Le2 & H2) Inc.
+  assert (x = c1) by congruence. subst x.
+  exists c2. split; auto. split; [eapply cb_le_trans; eauto|].
+  intros L. destruct (H1 L) as [L1|(r & Ir & Kr)]; [apply H2; auto|].
+  right. exists r. split; auto.
+Qed.
+
+Lemma filter_batch_acc_incl : forall ms s keep acc, incl acc (snd (filter_batch ms s keep acc)).
+Proof.
+  induction ms as [|m r IH]; intros s keep acc; cbn [filter_batch]; [apply incl_refl|].
+  destruct (is_req_or_notif m); [apply IH|].
+  destruct (assoc (fix_id (j_id m)) (calls s)) as [i|].
+  - destruct (complete_cb i _ s) as [s1 os1]. eapply incl_tran; [|apply IH]. apply incl_appl, incl_refl.
+  - destruct (c_push s && is_nil (j_method m) && has_reply_fields m); apply IH.
+Qed.
+
+Lemma filter_batch_next : forall ms s keep acc i c0, nth_error (cbs s) i = Some c0 ->
+  cb_next (cb_op c0) (cbs s) (cbs (fst (fst (filter_batch ms s keep acc)))) (snd (filter_batch ms s keep acc)) i c0.
+Proof.
+  induction ms as [|m r IH]; intros s keep acc i c0 N; cbn [filter_batch]; [apply cb_next_same; auto|].
+  destruct (is_req_or_notif m); [apply IH; auto|].
+  destruct (assoc (fix_id (j_id m)) (calls s)) as [j|].
+  2:{ destruct (c_push s && is_nil (j_method m) && has_reply_fields m); apply IH; auto. }
+  pose proof (complete_cb_next j (match j_error m with Some e => CErr (we_code e) (we_msg e) | None => CRes (j_result m) end)
+                s i c0 N) as C1.
+  destruct (complete_cb j _ s) as [s1 os1]. cbn [fst snd] in C1.
+  destruct C1 as (c1 & N1 & Le1 & H1).
+  pose proof (IH s1 keep (acc ++ os1) i c1 N1) as C2.
+  assert (Eo : cb_op c1 = cb_op c0) by apply Le1. rewrite Eo in C2.
+  eapply (cb_next_trans (cb_op c0) (cbs s) (cbs s1) _ (acc ++ os1) _ i c0 c1); eauto.
+  - exists c1. split; auto. split; auto. intros L. destruct (H1 L) as [L1|(r0 & Ir & Kr)]; auto.
+    right. exists r0. split; auto. apply in_or_app. auto.
+  - apply filter_batch_acc_incl.
+Qed.
+
+Lemma stop_cb_le cl c : cb_le c (stop_cb cl c) /\ (live c = true -> live (stop_cb cl c) = true).
+Proof. unfold stop_cb. destruct (assoc (cb_id c) cl); [|split; [apply cb_le_refl|auto]]. repeat split; auto. Qed.
+
+Lemma stop_locked_next sc s op os i c0 : nth_error (cbs s) i = Some c0 ->
+  cb_next op (cbs s) (cbs (fst (stop_locked sc s))) os i c0.
+Proof.
+  intros N. destruct (stop_locked sc s) as [s' os'] eqn:E. cbn [fst].
+  apply SrvC09.stop_locked_spec in E as [(_ & -> & _)|(_ & _ & _ & _ & _ & _ & _ & _ & _ & _ & _ & Cb)];
+    [apply cb_next_same; auto|].
+  rewrite Cb. exists (stop_cb (calls s) c0). split; [apply map_nth_error; auto|].
+  destruct (stop_cb_le (calls s) c0) as [Le Lv]. split; auto.
+Qed.
+
+Lemma read_cs_next f s i c0 : nth_error (cbs s) i = Some c0 ->
+  cb_next (cb_op c0) (cbs s) (cbs (fst (read_cs f s))) (snd (read_cs f s)) i c0.
+Proof.
+  intros N. unfold read_cs.
+  assert (Msg : forall i0, cb_next (cb_op c0) (cbs s)
+     (cbs (fst (if negb (running s) then (s <| rd := RExited |> <| wg ::= pred |>, [])
+           else match i0 with
+           | InBad => let '(s', os) := push_error s ParseError s_invalid_value in (s' <| rd := RIdle |>, os)
+           | InMsgs _ [] => let '(s', os) := push_error s InvalidRequest s_empty_batch in (s' <| rd := RIdle |>, os)
+           | InMsgs b ms =>
+               let '(s1, keep, os) := filter_batch ms s [] [] in
+               match keep with
+               | [] => (s1 <| rd := RIdle |>, os)
+               | _ => let s2 := s1 <| inq ::= fun q => q ++ [(b, keep)] |> <| rd := RIdle |> in
+                      if work_closed s2 && (length (inq s2) =? 1)
+                      then (s2 <| crash := Some CrSendOnClosedWork |>, os ++ [OCrash CrSendOnClosedWork])
+                      else (s2, os)
+               end
+           end)))
+     (snd (if negb (running s) then (s <| rd := RExited |> <| wg ::= pred |>, [])
+           else match i0 with
+           | InBad => let '(s', os) := push_error s ParseError s_invalid_value in (s' <| rd := RIdle |>, os)
+           | InMsgs _ [] => let '(s', os) := push_error s InvalidRequest s_empty_batch in (s' <| rd := RIdle |>, os)
+           | InMsgs b ms =>
+               let '(s1, keep, os) := filter_batch ms s [] [] in
+               match keep with
+               | [] => (s1 <| rd := RIdle |>, os)
+               | _ => let s2 := s1 <| inq ::= fun q => q ++ [(b, keep)] |> <| rd := RIdle |> in
+                      if work_closed s2 && (length (inq s2) =? 1)
+                      then (s2 <| crash := Some CrSendOnClosedWork |>, os ++ [OCrash CrSendOnClosedWork])
+                      else (s2, os)
+               end
+           end)) i c0).
+  { intros i0. destruct (negb (running s)); [apply cb_next_same; auto|].
+    destruct i0 as [|b ms]; [apply cb_next_same; auto|]. destruct ms as [|m ms]; [apply cb_next_same; auto|].
+    pose proof (filter_batch_next (m :: ms) s [] [] i c0 N) as Fb.
+    destruct (filter_batch (m :: ms) s [] []) as [[s1 keep] os1]. cbn [fst snd] in Fb.
+    destruct keep as [|k0 kr]; [exact Fb|]. cbv zeta.
+    match goal with |- context [if ?b then _ else _] => destruct b end; cbn [fst snd]; [|exact Fb].
+    destruct Fb as (c' & N' & Le & Hl). exists c'. split; [exact N'|]. split; [exact Le|].
+    intros L. destruct (Hl L) as [L1|(r & Ir & Kr)]; auto. right. exists r. split; auto. apply in_or_app. auto. }
+  destruct f as [i0|i0|sc]; [apply Msg|apply Msg|].
+  pose proof (stop_locked_next sc s (cb_op c0) (snd (stop_locked sc s)) i c0 N) as St.
+  destruct (stop_locked sc s) as [s2 os2]. exact St.
+Qed.
+
+Lemma raw_cb_next s l s' os i c0 : step_raw s l = Some (s', os) -> nth_error (cbs s) i = Some c0 ->
+  cb_next (cb_op c0) (cbs s) (cbs s') os i c0.
+Proof.
+  intros H N.
+  destruct (neutral l) eqn:Neu.
+  { apply step_raw_neutral in H as [P _]; auto. apply pv_fields in P.
+    destruct P as (_ & _ & _ & _ & _ & _ & -> & _). apply cb_next_same; auto. }
+  destruct l; try discriminate Neu; cbn [step_raw] in H.
+  - destruct (negb (running s) && (wg s =? 0)); [|discriminate]. injection H as <- <-. apply cb_next_same; auto.
+  - injection H as <- <-. apply cb_next_same; auto.
+  - injection H as <- <-. apply cb_next_same; auto.
+  - injection H as <- <-. apply cb_next_same; auto.
+  - destruct (c_push s); injection H as <- <-; apply cb_next_same; auto.
+  - destruct (find_idx _ 0 (cbs s)) as [j|]; injection H as <- <-; [|apply cb_next_same; auto].
+    apply cb_next_upd; auto.
+    + intros x. destruct (cb_cancelled x) eqn:Cx; [apply cb_le_refl|]. repeat split; auto.
+    + intros x L. destruct (cb_cancelled x); auto.
+  - destruct (rd s) as [| |f|]; try discriminate. injection H as H.
+    pose proof (read_cs_next f s i c0 N) as X. rewrite H in X. exact X.
+  - destruct (find_op n (ops s)) as [[| |]|]; try discriminate.
+    match type of H with context [stop_locked SCStop ?x] =>
+      pose proof (fun o => stop_locked_next SCStop x (cb_op c0) o i c0 N) as X;
+      destruct (stop_locked SCStop x) as [s2 os2] end.
+    injection H as <- <-. apply X.
+  - destruct (find_op n (ops s)) as [[| |]|]; try discriminate. cbn in H.
+    destruct (assoc id (used s)) as [owner|]; injection H as <- <-; [|apply cb_next_same; auto].
+    pose proof (cancel_task_pv owner (s <| ops ::= del_op n |>)) as P. apply pv_fields in P.
+    destruct P as (_ & _ & _ & _ & _ & _ & -> & _). apply cb_next_same; auto.
+  - destruct (find_op n (ops s)) as [[| |n' w m p]|]; try discriminate. cbn in H.
+    destruct (running s); cbn in H; [|injection H as <- <-; apply cb_next_same; auto].
+    destruct w; [|injection H as <- <-; apply cb_next_same; auto].
+    assert (App : forall x, cb_next (cb_op c0) (cbs s) (cbs s ++ [x]) os i c0).
+    { intros x. exists c0. split; [apply nth_error_app_old; auto|]. split; [apply cb_le_refl|auto]. }
+    destruct (send_fail s); [injection H as <- <-; apply App|].
+    destruct (find _ (ended s)) as [[? ?]|]; injection H as <- <-; apply App.
+  - rename c into j.
+    destruct (nth_error (cbs s) j) as [cb0|] eqn:Nj; [|discriminate].
+    destruct (cb_watch cb0) eqn:W; try discriminate.
+    set (s1 := s <| cbs ::= upd_nth j (fun c => c <| cb_watch := WDone |>) |>) in *.
+    assert (U : cb_next (cb_op c0) (cbs s) (cbs s1) [] i c0).
+    { apply cb_next_upd; auto. intros x. repeat split; auto. }
+    destruct (assoc (cb_id cb0) (calls s1)) as [j'|]; [|injection H as <- <-; exact U].
+    destruct (cb_slot cb0); [injection H as <- <-; exact U|].
+    destruct (j' =? j); [|injection H as <- <-; exact U].
+    assert (E : exists v, complete_cb j v s1 = (s', os)).
+    { destruct (cb_ctx cb0) as [[|]|]; injection H as H; eauto. }
+    destruct E as (v & E). destruct U as (c1 & N1 & Le1 & H1).
+    pose proof (complete_cb_next j v s1 i c1 N1) as C2. rewrite E in C2. cbn [fst snd] in C2.
+    assert (Eo : cb_op c1 = cb_op c0) by apply Le1. rewrite Eo in C2.
+    eapply (cb_next_trans (cb_op c0) (cbs s) (cbs s1) _ [] _ i c0 c1); eauto.
+    all: try (intros x Hx; destruct Hx).
+    all: try (exists c1; split; auto; split; auto).
+Qed.
+
+Lemma step_cb_next s l s' os i c0 : step s l = Some (s', os) -> nth_error (cbs s) i = Some c0 ->
+  cb_next (cb_op c0) (cbs s) (cbs s') os i c0.
+Proof.
+  intros H N. apply step_obs_raw in H as (_ & s1 & os1 & ex & Raw & -> & _ & P).
+  apply pv_fields in P. destruct P as (_ & _ & _ & _ & _ & _ & -> & _).
+  destruct (raw_cb_next _ _ _ _ _ _ Raw N) as (c' & N' & Le & Hl). exists c'. split; auto. split; auto.
+  intros L. destruct (Hl L) as [L1|(r & Ir & Kr)]; auto. right. exists r. split; auto. apply in_or_app. auto.
+Qed.
+
+Lemma run_cb_next : forall tr s s' oss i c0, run s tr = Some (s', oss) -> nth_error (cbs s) i = Some c0 ->
+  cb_next (cb_op c0) (cbs s) (cbs s') (concat oss) i c0.
+Proof.
+  induction tr as [|l r IH]; cbn [run]; intros s s' oss i c0 H N.
+  - injection H as <- <-. apply cb_next_same; auto.
+  - destruct (step s l) as [[s1 os]|] eqn:E; [|discriminate].
+    destruct (run s1 r) as [[s2 oss2]|] eqn:E2; [|discriminate]. injection H as <- <-. cbn [concat].
+    destruct (step_cb_next _ _ _ _ _ _ E N) as (c1 & N1 & Le1 & H1).
+    destruct (IH _ _ _ _ _ E2 N1) as (c2 & N2 & Le2 & H2).
+    assert (Eo : cb_op c1 = cb_op c0) by apply Le1. rewrite Eo in H2.
+    exists c2. split; auto. split; [eapply cb_le_trans; eauto|].
+    intros L. destruct (H1 L) as [L1|(r0 & Ir & Kr)].
+    + destruct (H2 L1) as [L2|(r0 & Ir & Kr)]; auto. right. exists r0. split; auto. apply in_or_app. auto.
+    + right. exists r0. split; auto. apply in_or_app. auto.
+Qed.
+
+(* a reply bearing the id k is in the transport (fed, not yet read) or held by the reader *)
+Definition has_reply (k : bytes) (f : feed) : Prop :=
+  exists ms m, msgs_feed f ms /\ In m ms /\ is_req_or_notif m = false /\ fix_id (j_id m) = k.
+Definition reply_pending (s : state) (k : bytes) : Prop :=
+  (exists f, rd s = RHold f /\ has_reply k f) \/ (exists f, In f (ch_in s) /\ has_reply k f).
+
+Lemma read_cs_assoc_none f s k : assoc k (calls s) = None -> assoc k (calls (fst (read_cs f s))) = None.
+Proof.
+  intros A. destruct f as [i0|i0|sc]; unfold read_cs.
+  1,2: destruct (negb (running s)); [exact A|];
+       destruct i0 as [|b ms]; [exact A|]; destruct ms as [|m ms]; [exact A|];
+       pose proof (filter_batch_assoc_none (m :: ms) s [] [] k A) as Fb;
+       destruct (filter_batch (m :: ms) s [] []) as [[s1 keep] os1]; cbn [fst] in Fb;
+       destruct keep as [|k0 kr]; [exact Fb|]; cbv zeta;
+       match goal with |- context [if ?b then _ else _] => destruct b end; exact Fb.
+  destruct (stop_locked sc s) as [s2 os2] eqn:St. cbn [fst].
+  apply SrvC09.stop_locked_spec in St as [(_ & -> & _)|(_ & _ & _ & _ & _ & _ & Cl & _)]; [exact A|].
+  change (assoc k (calls s2) = None). rewrite Cl. exact A.
+Qed.
+
+Lemma read_cs_stopped f s ms : msgs_feed f ms -> running s = false -> running (fst (read_cs f s)) = false.
+Proof. intros (b & [-> | ->]) Rn; unfold read_cs; rewrite Rn; cbn; exact Rn. Qed.
+
+Lemma raw_reply_pending s l s1 os1 k : inv_push s -> is_rel l = true -> step_raw s l = Some (s1, os1) ->
+  reply_pending s k -> running s1 = true -> reply_pending s1 k \/ assoc k (calls s1) = None.
+Proof.
+  intros Ip Il H Pend Rn1.
+  destruct (SrvC08u.quiet_label l) eqn:Ql.
+  { apply SrvC08u.raw_chp in H; auto. unfold SrvC08u.chp in H. injection H as H1 H2 _. left.
+    unfold reply_pending. rewrite H1, H2. exact Pend. }
+  destruct l; try discriminate Ql; try discriminate Il.
+  - (* LRelRead *)
+    pose proof H as Raw. unfold step_raw in H. destruct (rd s) as [| |f0|] eqn:Rd; try discriminate. injection H as H.
+    destruct (SrvC08y.read_cs_feeds _ _ _ _ H) as [Ch _].
+    destruct Pend as [(f & Rf & Hr)|(f & Inf & Hr)].
+    + rewrite Rd in Rf. injection Rf as <-. destruct Hr as (ms & m & M & Im & Q & Ek). right.
+      destruct (running s) eqn:Rn.
+      * destruct (assoc k (calls s)) as [i|] eqn:A.
+        -- destruct (ip_reg _ Ip _ _ (assoc_in _ _ _ A)) as (c0 & N0 & _).
+           rewrite <- Ek in A. rewrite <- Ek.
+           apply (reply_completes_raw s f0 ms m i c0 s1 os1 Ip Rn Rd M Im Q A N0 Raw).
+        -- pose proof (read_cs_assoc_none f0 s k A) as X. rewrite H in X. exact X.
+      * pose proof (read_cs_stopped f0 s ms M Rn) as X. rewrite H in X. cbn [fst] in X. congruence.
+    + left. right. exists f. split; auto. destruct Ch as [-> | ->]; auto. apply in_or_app. auto.
+  - (* LRelStop *)
+    unfold step_raw in H. destruct (find_op n (ops s)) as [[n0|n0 id|n0 w m p]|]; try discriminate.
+    match type of H with context [stop_locked SCStop ?x] =>
+      pose proof (SrvC08y.stop_locked_chin SCStop x) as X; destruct (stop_locked SCStop x) as [s2 os2] end.
+    injection H as <- <-. destruct (X _ _ eq_refl) as [Ch Rd]. cbn in Ch, Rd. left. unfold reply_pending. rewrite Rd.
+    destruct Pend as [P|(f & Inf & Hr)]; [left; exact P|right]. exists f. split; auto.
+    destruct Ch as [-> | ->]; auto. apply in_or_app. auto.
+Qed.
+
+Lemma settle1_reply_pending s s' os k : settle1 s = Some (s', os) -> reply_pending s k -> reply_pending s' k.
+Proof.
+  intros H Pend. apply settle1_inv in H.
+  destruct H as [f q Rd Q | D _ | u un D _ _ | i un F E _ | i un F E _ | W _ Q | W _ Q]; try exact Pend.
+  - destruct Pend as [(g & Rg & _)|(g & Ing & Hr)]; [congruence|]. rewrite Q in Ing. destruct Ing as [->|Ing].
+    + left. exists g. split; auto.
+    + right. exists g. split; auto.
+  - destruct (dequeue_nontask_like s) as (_ & Rd & _ & _ & _ & Ch & _). unfold reply_pending. rewrite Rd, Ch. exact Pend.
+Qed.
+
+Lemma settle_reply_pending k : forall fuel s acc s' os, settle fuel s acc = (s', os) -> reply_pending s k ->
+  reply_pending s' k.
+Proof.
+  induction fuel as [|n IH]; cbn; intros s acc s' os H Pend.
+  - injection H as <- _. exact Pend.
+  - destruct (settle1 s) as [[s1 os1]|] eqn:E; [|injection H as <- _; exact Pend].
+    eapply IH; eauto. eapply settle1_reply_pending; eauto.
+Qed.
+
+Lemma step_reply_pending c s l s' os k : reach c s -> is_rel l = true -> step s l = Some (s', os) ->
+  reply_pending s k -> running s' = true -> reply_pending s' k \/ assoc k (calls s') = None.
+Proof.
+  intros R Il H Pend Rn'. pose proof (inv_push_reach _ _ R) as Ip.
+  apply step_decompose in H as (Cr & s1 & os1 & Hr & Hs).
+  destruct Hs as [(_ & -> & _)|(_ & Hs)]; [eapply raw_reply_pending; eauto|].
+  pose proof (settle_running _ _ _ _ _ Hs) as Rs. pose proof (settle_pv _ _ _ _ _ Hs) as P. apply pv_fields in P.
+  destruct P as (_ & _ & _ & _ & Cl & _).
+  destruct (raw_reply_pending _ _ _ _ k Ip Il Hr Pend) as [P1|A1]; [congruence| |].
+  - left. eapply settle_reply_pending; eauto.
+  - right. rewrite Cl. exact A1.
+Qed.
+
+Lemma rel_run_stopped c tr s s' oss : reach c s -> rel_only tr -> run s tr = Some (s', oss) ->
+  running s = false -> running s' = false.
+Proof.
+  intros R F H Rn. apply (stopped_only_notes_trace c tr s s' oss R Rn H (rel_only_no_start _ F)).
+Qed.
+
+(* an outstanding callback whose reply is pending: along a release-only run that ends with the server still running
+   the reply stays pending, or the callback has returned *)
+Lemma run_reply_pending c k i : forall tr s s' oss c0, reach c s -> rel_only tr -> run s tr = Some (s', oss) ->
+  nth_error (cbs s) i = Some c0 -> cb_id c0 = k -> reply_pending s k -> running s' = true ->
+  reply_pending s' k \/ (forall c', nth_error (cbs s') i = Some c' -> live c' = false).
+Proof.
+  induction tr as [|l r IH]; cbn [run]; intros s s' oss c0 R F H N Ek Pend Rn'.
+  - injection H as <- _. auto.
+  - destruct (step s l) as [[s1 os]|] eqn:E; [|discriminate].
+    destruct (run s1 r) as [[s2 oss2]|] eqn:E2; [|discriminate]. injection H as <- <-.
+    inversion F as [|? ? Fl Fr]; subst.
+    pose proof (reach_step _ _ _ _ _ R E) as R1.
+    assert (Rn1 : running s1 = true).
+    { destruct (running s1) eqn:Rn1; auto. rewrite (rel_run_stopped c r s1 s2 oss2 R1 Fr E2 Rn1) in Rn'. discriminate. }
+    destruct (step_cb_next _ _ _ _ _ _ E N) as (c1 & N1 & Le1 & _).
+    assert (Ek1 : cb_id c1 = cb_id c0) by apply Le1.
+    destruct (step_reply_pending c s l s1 os (cb_id c0) R Fl E Pend Rn1) as [P1|A1].
+    + apply (IH s1 s2 oss2 c1 R1 Fr E2 N1 Ek1 P1 Rn').
+    + right. intros c' N'. destruct (run_cb_next _ _ _ _ _ _ E2 N1) as (c2 & N2 & Le2 & _).
+      assert (c2 = c') by congruence. subst c2.
+      destruct (live c') eqn:L'; auto. exfalso.
+      assert (L1 : live c1 = true) by (apply Le2; auto).
+      pose proof (SrvC09c.live_registered c s1 i c1 R1 N1 L1) as I1.
+      pose proof (NoDup_assoc _ _ _ (ip_nodup _ (inv_push_reach _ _ R1)) I1) as A. congruence.
+Qed.
+
+(* C09: in the last state s' of every maximal release-only run from s, for every callback record i of s:
+   - it is still there with its operation number and id; a callback that had returned has not come back;
+   - if it is still outstanding, the server is running, its context is alive, the reader is idle and no reply
+     with its id is in the transport: nobody has answered, cancelled or stopped;
+   - hence, if in s the server was stopped, or its context had ended, or a reply with its id had been fed (in the
+     transport or held by the reader), the Callback has returned: it was outstanding in s, is not in s', is no longer
+     registered, and its return (a result, an error or a context error) is among the observations of the run *)
+Definition cb_triggered (s : state) (c0 : cb) : Prop :=
+  running s = false \/ cb_cancelled c0 = true \/ cb_ctx c0 <> None \/ reply_pending s (cb_id c0).
+
+Definition c09_returned (s : state) (tr : list label) (s' : state) (oss : list (list obs)) : Prop :=
+  forall i c0, nth_error (cbs s) i = Some c0 ->
+    exists c', nth_error (cbs s') i = Some c' /\ cb_op c' = cb_op c0 /\ cb_id c' = cb_id c0 /\
+      (live c' = true -> live c0 = true /\ In (cb_id c0, i) (calls s') /\ running s' = true /\ cb_ctx c' = None /\
+         cb_cancelled c' = false /\ rd s' = RIdle /\ ch_in s' = [] /\ ~ cb_triggered s c0) /\
+      (live c0 = true -> cb_triggered s c0 ->
+         live c' = false /\ ~ In (cb_id c0, i) (calls s') /\
+         exists r, In (ORet (cb_op c0) r) (concat oss) /\ is_completion r = true).
+
+Theorem c09_callback_eventually_returns c s : reach c s -> eventually s (c09_returned s).
+Proof.
+  intros R. apply (eventually_intro c); auto. intros tr s' oss H F R' Q i c0 N.
+  pose proof (reach_reachf _ _ R') as Rf'. pose proof (no_crash _ _ R') as Cr'.
+  destruct (run_cb_next _ _ _ _ _ _ H N) as (c' & N' & (Eo & Ei & Cc & Lv) & Hl).
+  assert (Alive : live c' = true -> live c0 = true /\ In (cb_id c0, i) (calls s') /\ running s' = true /\
+            cb_ctx c' = None /\ cb_cancelled c' = false /\ rd s' = RIdle /\ ch_in s' = [] /\ ~ cb_triggered s c0).
+  { intros L'. pose proof (Lv L') as L0.
+    pose proof (SrvC09c.live_registered c s' i c' R' N' L') as I'. rewrite Ei in I'.
+    destruct (quiescent_complete c s' _ _ R' Cr' Q I') as (cx & Nx & _ & Cx & Ccx & Rn').
+    assert (cx = c') by congruence. subst cx.
+    destruct (quiescent_reader c s' R' Q) as [Nh Idle].
+    assert (Ri : rd s' = RIdle).
+    { pose proof (reachf_run_rd c s' Rf' Rn') as Lr. destruct (rd s') eqn:Rd; cbn in Lr; try discriminate; auto.
+      destruct (Nh f eq_refl). }
+    split; [exact L0|]. split; [exact I'|]. split; [exact Rn'|]. split; [exact Cx|]. split; [exact Ccx|].
+    split; [exact Ri|]. split; [exact (Idle Ri)|].
+    intros [Tr|[Tr|[Tr|Tr]]].
+    - rewrite (rel_run_stopped c tr s s' oss R F H Tr) in Rn'. discriminate.
+    - rewrite (Cc Tr) in Ccx. discriminate.
+    - pose proof (SrvC09c.live_registered c s i c0 R N L0) as I0.
+      destruct (ip_reg _ (inv_push_reach _ _ R) _ _ I0) as (cy & Ny & _ & (_ & _ & _ & O4 & _)).
+      assert (cy = c0) by congruence. subst cy. rewrite (Cc (O4 Tr)) in Ccx. discriminate.
+    - destruct (run_reply_pending c (cb_id c0) i tr s s' oss c0 R F H N eq_refl Tr Rn') as [P'|Nl].
+      + destruct P' as [(f & Rf & _)|(f & Inf & _)]; [congruence|]. rewrite (Idle Ri) in Inf. destruct Inf.
+      + rewrite (Nl _ N') in L'. discriminate. }
+  exists c'. split; [exact N'|]. split; [exact Eo|]. split; [exact Ei|]. split; [exact Alive|].
+  intros L0 Tr.
+  assert (L' : live c' = false).
+  { destruct (live c') eqn:L'; auto. exfalso. destruct (Alive eq_refl) as (_ & _ & _ & _ & _ & _ & _ & Nt). auto. }
+  split; [exact L'|]. split.
+  - intros I'. destruct (ip_reg _ (inv_push_reach _ _ R') _ _ I') as (cy & Ny & _ & (O1 & O2 & _)).
+    assert (cy = c') by congruence. subst cy. unfold live in L'. rewrite O1, O2 in L'. discriminate.
+  - destruct (Hl L0) as [L1|Hr]; [congruence|exact Hr].
+Qed.
+
+(* non-vacuity: a Callback is outstanding and the peer's reply has been fed; running on its own the server reads it
+   and the Callback returns the result; its watcher exits *)
+Definition tr_cb_fed : list label :=
+  [LStart; LCallPush 2 true [109]%N [50]%N; LRelPush 2; LFeed (FMsg (InMsgs false [reply_msg [49]%N [51]%N]))].
+
+Example c09_callback_eventually_returns_nonvacuous :
+  exists s c0 tr s' oss, reach cfg_push s /\ nth_error (cbs s) 0 = Some c0 /\ live c0 = true /\ cb_op c0 = 2 /\
+    reply_pending s (cb_id c0) /\ cb_triggered s c0 /\ calls s = [([49]%N, 0)] /\
+    run s tr = Some (s', oss) /\ rel_only tr /\ quiescent s' = true /\
+    concat oss = [ORet 2 (ACbRes [51]%N)] /\ calls s' = [] /\ option_map live (nth_error (cbs s') 0) = Some false.
+Proof.
+  exists (st_of cfg_push tr_cb_fed). eexists. exists [LRelRead; LRelCbWatch 0; LRelNext]. eexists _, _.
+  split; [apply reach_st_of; vm_compute; discriminate|]. split; [vm_compute; reflexivity|].
+  split; [vm_compute; reflexivity|]. split; [vm_compute; reflexivity|].
+  assert (P : reply_pending (st_of cfg_push tr_cb_fed) [49]%N).
+  { left. eexists. split; [vm_compute; reflexivity|].
+    exists [reply_msg [49]%N [51]%N], (reply_msg [49]%N [51]%N).
+    split; [exists false; left; reflexivity|]. split; [left; reflexivity|]. split; vm_compute; reflexivity. }
+  split; [exact P|]. split; [right; right; right; exact P|].
+  split; [vm_compute; reflexivity|]. split; [vm_compute; reflexivity|]. split; [repeat constructor|].
+  repeat split; vm_compute; reflexivity.
+Qed.
+
+Lemma live_spec c : live c = true <-> cb_slot c = None /\ cb_ret c = false.
+Proof.
+  unfold live. destruct (cb_slot c); [split; [discriminate|intros [X _]; discriminate]|].
+  rewrite negb_true_iff. split; [auto|tauto].
+Qed.
